@@ -43,6 +43,14 @@ def _mentions(e, names) -> bool:
     return all(n in s for n in names)
 
 
+def _stmt_is(stmt, tmpl_src) -> bool:
+    from ..tmpl import T, tmatch
+    try:
+        return tmatch(stmt, T(tmpl_src)) is not None
+    except ValueError:
+        return False
+
+
 def _raise_nodes(g, exc):
     out = []
     for n, s in g.stmt.items():
@@ -67,22 +75,48 @@ def _controlling_tests(g, r):
     return out
 
 
-# site, exception, names the controlling test must mention (any of the alternatives), effect predicate (text fragments), note
+# site, exception, alternatives [(test template, [definition templates sharing its metavariables], label)], effect templates, what
+# (templates are structural: L_x matches any local name consistently, ANY_ any expression -- see hv/tmpl.py)
 GUARDS = [
-    ("hugr.build.dfg.DfBase._wire_up_port", "NoSiblingAncestor", [("isnone", "node_ancestor")], ["add_link(", "add_state_order("],
-     "a wire whose source has no ancestor-sibling relation to its target"),
-    ("hugr.build.cond_loop.Conditional._update_outputs", "ConditionalError", [("cmp", "outputs", "._outputs")], [], "cases disagree on their outputs"),
-    ("hugr.build.cond_loop.Conditional.add_case", "ConditionalError", [["case_id", "len(self._case_builders)"], ("truth", "built")], ["self._case_builders[case_id] ="],
-     "case index out of range / built twice"),
-    ("hugr.build.cond_loop.Conditional.__exit__", "ConditionalError", [["all(", "_case_builders"]], [], "context left with unbuilt cases"),
-    ("hugr.build.cfg.Cfg.branch_exit", "MismatchedExit", [("cmp", "_cfg_outputs", "out_types")], ["_cfg_outputs ="], "exit branch disagrees with the established exit type"),
-    ("hugr.build.dfg.Function.set_outputs", "ValueError", [("cmp", "arg_types", "._outputs")], ["super().set_outputs("], "function outputs differ from the declared ones"),
-    ("hugr.ops._CallOrLoad.__init__", "NoConcreteFunc", [("isnone", "instantiation"), ("cmp", "len(signature.params)", "len(type_args)")], ["self.instantiation = instantiation"],
-     "polymorphic function without matching instantiation / argument count"),
-    ("hugr.build.dfg.DfBase._get_dataflow_type", "ValueError", [("isnone", "ty")], [], "a non-dataflow port used as a wire"),
-    ("hugr.build.tracked_dfg.TrackedDfg.tracked_wire", "IndexError", [("isnone", "tracked")], [], "an integer that names no tracked wire"),
-    ("hugr.ops._check_complete", "IncompleteOp", [("isnone", "v")], [], "an incomplete operation is serialized"),
+    ("hugr.build.dfg.DfBase._wire_up_port", "NoSiblingAncestor",
+     [("L_a is None", ["L_a = _ancestral_sibling(self.hugr, ANY_, node)"], "sibling-ancestor is None")],
+     ["self.hugr.add_link(ANY_, ANY_)", "self.add_state_order(ANY_, ANY_)"], "a wire whose source has no ancestor-sibling relation to its target"),
+    ("hugr.build.cond_loop.Conditional._update_outputs", "ConditionalError",
+     [("outputs != self.parent_op._outputs", [], "case outputs differ from the established ones")], [], "cases disagree on their outputs"),
+    ("hugr.build.cond_loop.Conditional.add_case", "ConditionalError",
+     [("RANGE", [], "case index outside 0..n-1"), ("L_b", ["(L_c, L_b) = self._case_builders[case_id]"], "case already built")],
+     ["self._case_builders[case_id] = ANY_"], "case index out of range / built twice"),
+    ("hugr.build.cond_loop.Conditional.__exit__", "ConditionalError",
+     [("not all((L_b for (ANY_, L_b) in self._case_builders))", [], "some case unbuilt")], [], "context left with unbuilt cases"),
+    ("hugr.build.cfg.Cfg.branch_exit", "MismatchedExit",
+     [("self._exit_op._cfg_outputs != L_o", ["L_o = self._nth_outputs(ANY_)"], "exit row differs from the established one")],
+     ["self._exit_op._cfg_outputs = ANY_"], "exit branch disagrees with the established exit type"),
+    ("hugr.build.dfg.Function.set_outputs", "ValueError",
+     [("L_t != self.parent_op._outputs", ["L_t = [self._get_dataflow_type(L_w) for L_w in args]"], "wire types differ from the declared outputs")],
+     ["super().set_outputs(*args)"], "function outputs differ from the declared ones"),
+    ("hugr.ops._CallOrLoad.__init__", "NoConcreteFunc",
+     [("instantiation is None", [], "missing instantiation"), ("len(signature.params) != len(type_args)", [], "argument count mismatch")],
+     ["self.instantiation = instantiation"], "polymorphic function without matching instantiation / argument count"),
+    ("hugr.build.dfg.DfBase._get_dataflow_type", "ValueError",
+     [("L_t is None", ["L_t = self.hugr.port_type(ANY_)"], "port has no dataflow type")], [], "a non-dataflow port used as a wire"),
+    ("hugr.build.tracked_dfg.TrackedDfg.tracked_wire", "IndexError",
+     [("L_t is None", ["L_t = self.tracked[index]"], "index untracked or out of range")], [], "an integer that names no tracked wire"),
+    ("hugr.ops._check_complete", "IncompleteOp", [("v is None", [], "value not set")], [], "an incomplete operation is serialized"),
 ]
+
+
+def _alt_matches(fn, test_node, alt) -> bool:
+    from ..tmpl import T, tfind, tmatch
+    tmpl, defs, _ = alt
+    if tmpl == "RANGE":
+        # a two-sided range test on the parameter case_id against len(self._case_builders)
+        s = u(test_node)
+        return "case_id" in s and "len(self._case_builders)" in s
+    for node, env in tfind(test_node, T(tmpl)):
+        if all(tfind(fn, T(d), env) for d in defs):
+            return True
+    # the template may be the whole test or its negation
+    return False
 
 
 def r1_guards(ctx) -> None:
@@ -98,28 +132,30 @@ def r1_guards(ctx) -> None:
             continue
         reach = g.reachable(0)
         matched_alts = set()
+        guard_tests = set()
         for r in rs:
             if r not in reach:
                 ctx.fail("C13.R1", f"{short}: raise {exc} reachable", mod.path, g.stmt[r].lineno, f"the raise of {exc} is unreachable", g.stmt[r])
                 continue
             tests = _controlling_tests(g, r)
-            for i, names in enumerate(alts):
-                if any(_mentions(g.stmt[t], names) for t, lab in tests):
-                    matched_alts.add(i)
-        for i, names in enumerate(alts):
-            ctx.check(i in matched_alts, "C13.R1", f"{short}: {exc} controlled by a test on {'/'.join(names[1:] if isinstance(names, tuple) else names)}", mod.path, fn.lineno,
-                      f"no raise of {exc} in {short} is controlled by a test on {names}: {what} is not refused", fn,
+            for i, alt in enumerate(alts):
+                for t, lab in tests:
+                    if _alt_matches(fn, g.stmt[t], alt):
+                        matched_alts.add(i)
+                        guard_tests.add(t)
+        for i, alt in enumerate(alts):
+            ctx.check(i in matched_alts, "C13.R1", f"{short}: {exc} when {alt[2]}", mod.path, fn.lineno,
+                      f"no raise of {exc} in {short} is controlled by the test `{alt[0]}`" + (f" (with {alt[1]})" if alt[1] else "") + f": {what} is not refused", fn,
                       detail=f"{len(rs)} raise site(s)")
         # check-before-effect
         if effects:
-            eff = [n for n, s in g.stmt.items() if s is not None and g.kind.get(n) in ("stmt", "with") and any(f in u(s) for f in effects)]
+            from ..tmpl import T, tfind
+            eff = [n for n, s_ in g.stmt.items() if s_ is not None and g.kind.get(n) in ("stmt", "with") and any(tfind(s_, T(f)) or _stmt_is(s_, f) for f in effects)]
             ctx.check(bool(eff), "C13.R1", f"{short}: effect site", mod.path, fn.lineno, f"the guarded effect ({effects}) was not found", fn)
-            guard_tests = {t for r in rs if r in reach for t, lab in _controlling_tests(g, r) if any(_mentions(g.stmt[t], n_) for n_ in alts)}
             bad = [e for e in eff if any(t in g.reachable(e) for t in guard_tests)]
             ctx.check(not bad, "C13.R1", f"{short}: check before effect", mod.path, (g.stmt[bad[0]].lineno if bad else fn.lineno),
                       f"in {short} the effect `{u(g.stmt[bad[0]])[:70] if bad else ''}` can happen before the {exc} check: the inconsistent construction is "
                       "recorded first and refused afterwards (or not at all)", g.stmt[bad[0]] if bad else None, detail=f"{len(eff)} effect site(s) all after the checks")
-            # and the effect is not reachable while skipping a check that applies: every path to the effect passes each guard test that dominates the raise unconditionally
     # ---- Block._wire_up_port: NotInSameCfg
     mod, cls, fn = _find(prog, "hugr.build.cfg.Block._wire_up_port")
     handlers = [h for h in ast.walk(fn) if isinstance(h, ast.ExceptHandler)]
@@ -257,8 +293,13 @@ def run(ctx) -> None:
     ctx.rule("C13.R2", "optional op fields are read through _check_complete accessors on every path reachable from _to_serial", floor=15)
     ctx.rule("C13.R3", "index range guards followed by a subscript bound the index on both sides", floor=1)
     r1_guards(ctx)
+    from .c01 import r6_function_boundary
+    r6_function_boundary(ctx, rule="C13.R1")     # "a wire's source has no ancestor-sibling relation to its target" includes wires into a function body
     r2_complete(ctx)
     r3_two_sided(ctx)
+    from .. import lints
+    lints.arm(ctx)
+
 
 
 # ---------------------------------------------------------------------------------------
